@@ -46,6 +46,7 @@ class HoldAnalysis(RuleAnalysis):
         self.sources: list[ast.AST] = []
         self.problems: list[tuple[Any, str, str]] = []  # (node, kind, var)
         self.sync_timeouts = sync_timeouts
+        self.check_raisers = True
         self.packet_vars: set[str] = set()  # names holding a *packet* (any Python value, None and falsy values included)
 
     def initial(self, fn: FunctionInfo):
@@ -63,6 +64,8 @@ class HoldAnalysis(RuleAnalysis):
         if f.attr == "next":
             ts = self.typer.expr_types(self.fn, f.value)
             return any(t.kind == "repo" and t.ref.name in CONSUMER_TYPES for t in ts)
+        if f.attr in ("popleft", "get_nowait", "get", "pop") and any(w in (dotted(f.value) or "").lower() for w in ("exception", "error", "waiter")):
+            return False  # a queue of errors / waiters, not of received data
         if f.attr in ("popleft", "get_nowait", "get", "pop"):
             ts = self.typer.expr_types(self.fn, f.value)
             if f.attr == "pop" or not ts:
@@ -94,6 +97,12 @@ class HoldAnalysis(RuleAnalysis):
             drv = c0 is not None and (c0.func.attr if isinstance(c0.func, ast.Attribute) else getattr(c0.func, "id", "")) in GENERATOR_DRIVERS
             if not drv and self.engine.summaries.atom_may_cancel(self.fn, node):
                 self.problems.append((node, "suspend", ",".join(sorted(held))))
+        if held and isinstance(node, ast.Call) and self.check_raisers and not self.is_source_call(node) and not (self._delivered_by(node) & held) \
+                and not (self.interp and self.interp.ctx.handler_tokens):
+            for t in self.targets(node, dispatch=False):
+                if isinstance(t, FunctionInfo) and explicit_raiser(self.engine, t):
+                    self.problems.append((node, "raiser", ",".join(sorted(held))))
+                    break
         if isinstance(node, (ast.Assign, ast.AnnAssign, ast.NamedExpr)):
             value = node.value
             tgts = node.targets if isinstance(node, ast.Assign) else [node.target]
@@ -228,6 +237,27 @@ class HoldAnalysis(RuleAnalysis):
             tr, fl = [held], [held - {name}]
             return (fl, tr) if neg else (tr, fl)
         return [fact], [fact]
+
+
+def explicit_raiser(engine, fn: FunctionInfo, depth: int = 0, seen: set | None = None) -> bool:
+    """Does `fn` (transitively through resolved repo callees, depth <= 3) contain a `raise <something>`?"""
+    seen = seen if seen is not None else set()
+    if fn.qualname in seen or depth > 3 or isinstance(fn.node, ast.Lambda):
+        return False
+    seen.add(fn.qualname)
+    from ..db import own_nodes
+    for n in own_nodes(fn.node):
+        if isinstance(n, ast.Raise) and n.exc is not None:
+            e = n.exc.func if isinstance(n.exc, ast.Call) else n.exc
+            nm = e.attr if isinstance(e, ast.Attribute) else getattr(e, "id", "")
+            if nm in ("RuntimeError", "AssertionError", "TypeError", "ValueError", "NotImplementedError"):
+                continue  # guards against API misuse: not an I/O outcome
+            return True
+        if isinstance(n, ast.Call):
+            for t in engine.typer.call_targets(fn, n, dispatch=False):
+                if isinstance(t, FunctionInfo) and explicit_raiser(engine, t, depth + 1, seen):
+                    return True
+    return False
 
 
 def mangled_tail(name: str) -> str:
